@@ -18,6 +18,12 @@ def recorded (s : St) (d : String) : Nat :=
 /-- the module account covers the recorded amounts, for every token -/
 def solvent (s : St) : Bool := (denoms s).all (fun d => decide (recorded s d ≤ s.bal clpAcct d))
 
+/-- the exact-equality half of C01: apart from the rounding remainders left behind by decommissions, the
+    module account holds exactly the recorded amounts.  `budget` = the number of provider refunds made by
+    the decommissions of the history so far (each refund truncates at most one base unit per token). -/
+def exact (s : St) (budget : Nat) : Bool :=
+  (denoms s).all (fun d => decide (s.bal clpAcct d ≤ recorded s d + budget))
+
 /-- C02: pool units = Σ provider units, and every provider record belongs to an existing pool -/
 def unitsOK (s : St) : Bool :=
   s.pools.all (fun e => decide (e.2.units = (s.lpsOf e.2.sym).sumBy (·.units)))
